@@ -28,11 +28,12 @@ inductive Reply where
 deriving DecidableEq, Repr, Inhabited
 
 /-- `getSupportedVersion`: the reader's (current, max) versions, or failure. ERROR_MESSAGE(VersionUnsupported) means
-a 1.0.1-only reader; an ERROR_MESSAGE carrying status Success is (as the code has it) treated the same way. -/
+a 1.0.1-only reader; every other ERROR_MESSAGE — also one carrying status Success — is an error reply and fails the
+connection attempt. -/
 def supported : Reply → Option (Nat × Nat)
   | .ok cur max => some (cur, max)
   | .errorMsg code =>
-    if code = Gen.StatusMsgVerUnsupported ∨ code = Gen.StatusSuccess then some (Gen.Version1_0_1, Gen.Version1_0_1) else none
+    if code = Gen.StatusMsgVerUnsupported then some (Gen.Version1_0_1, Gen.Version1_0_1) else none
   | _ => none
 
 /-- `SetProtocolVersion` is accepted only by a SetProtocolVersionResponse with status Success -/
